@@ -21,7 +21,7 @@ def gen(chk, mpmath, rng):
         got = mp.quadgl(lambda x: x ** rep["k"] * mp.exp(-x), [0, mp.inf])
         yield ex.relabs_close(got, ex.seqn("fact", rep["k"]), 10, p), {"pinned": kf["key"], "key": "analytic/x^k e^-ax/quadgl/p>=200", "k": rep["k"], "p": p, "what": "pinned representative"}
         mp.prec = 53
-    for i in range(chk.pick(260, 8000)):
+    for i in range(chk.pick(260, 1500)):
         p = rng.choice([30, 53, 53, 80, 120, rng.randint(30, 300)])
         mp.prec = p
         deg = rng.randint(0, 9)
